@@ -299,17 +299,17 @@ def change_to_path_dir(path: Optional["Path"]) -> Iterator[Optional[str]]:
         path_dir = scheme + path_dir
 
     token = current_path_dir.set(path_dir)
-    if chdir and path_dir:
-        chdir = os.getcwd()
-        path_dir = os.path.abspath(path_dir)
-        os.chdir(path_dir)
-
+    prev_cwd = None
     try:
+        if chdir and path_dir:
+            prev_cwd = os.getcwd()
+            os.chdir(path_dir)  # resolved by the OS like the path itself, lexical normalization breaks "link/.."
+            path_dir = os.path.abspath(path_dir)
         yield path_dir
     finally:
         current_path_dir.reset(token)
-        if chdir:
-            os.chdir(chdir)
+        if prev_cwd is not None:
+            os.chdir(prev_cwd)
 
 
 def hash_item(item):
